@@ -75,6 +75,12 @@ def monitorStep (P : Params) (prev : Obs) (ev : Ev) (o : Obs) (adm : List (Nat Ã
   for h in hs do
     if (h.getArrVal? 0).toOption == some (Json.str "sc") && (h.getArrVal? 1).toOption == (h.getArrVal? 2).toOption then
       v := v.mon "C15" "hook_prev_ne_to" idx
+    -- a back-off lasts what the back-off rule says, counted from now: the deadline announced and stored is now + duration
+    if (h.getArrVal? 0).toOption == some (Json.str "bo") then
+      let d := ((h.getArrVal? 1).toOption.bind (Â·.getInt?.toOption)).getD 0
+      let reset := ((h.getArrVal? 2).toOption.bind (Â·.getInt?.toOption)).getD 0
+      if reset != o.now + d || o.exp != some reset then
+        v := v.mon "C15" "backoff_deadline_is_now_plus_duration" idx s!"now {o.now}, duration {d}: announced {reset}, stored {o.exp}"
   -- the success streak is per state: successes counted before a state change are gone after it, so that "closes exactly when
   -- the reset rule holds for consecutive successes" means consecutive within the current half-open period
   -- (the failure streak is deliberately kept across half-open â†’ open: it drives the back-off)
